@@ -201,6 +201,10 @@ func (f *Frame) enterLoop(li *loopInfo, cur *State, rc *runCtx) {
 	for k, v := range f.anchorOrd {
 		savedAnchor[k] = v
 	}
+	savedAfter := map[string]int{}
+	for k, v := range f.afterOrd {
+		savedAfter[k] = v
+	}
 	numBefore := u.nfresh
 	dry := cur.clone()
 	drc := &runCtx{out: map[*ssa.BasicBlock]*State{}, edge: map[[2]int]T{}}
@@ -214,6 +218,7 @@ func (f *Frame) enterLoop(li *loopInfo, cur *State, rc *runCtx) {
 	f.defers = f.defers[:ndefers]
 	f.callOrd = savedOrd
 	f.anchorOrd = savedAnchor
+	f.afterOrd = savedAfter
 	// 3. havoc
 	li.pre = cur.clone()
 	li.preVals = map[*ssa.Phi]*V{}
